@@ -81,6 +81,16 @@ public:
         return false;
     }
 
+    // the step in progress when the last thread finished (or when everything blocked) is complete
+    void finish_pending_step(const std::vector<ThreadView> &tv) {
+        if (mode == SCRIPT && in_step && ops_in_step > 0 && pos < script.size()) {
+            in_step = false;
+            step_done(pos, tv);
+            ++pos;
+        }
+    }
+    void on_all_finished(const std::vector<ThreadView> &tv) override { finish_pending_step(tv); }
+
     void on_op(int thread, OpKind kind, const void *obj, const void *obj2, const char *label, int aux) override {
         if (mode == SCRIPT && in_step && pos < script.size() && script[pos].thread == thread) ++ops_in_step;
         op_applied(thread, kind, obj, obj2, label, aux);
